@@ -4,7 +4,7 @@ from pymtl3 import *
 
 
 class QHarness( Component ):
-  def construct( s, DutType, n, eo, do, msgs ):
+  def construct( s, DutType, n, eo, do, msgs, order=None ):
     s.dut = DutType( n )
     s.k   = len( eo )
     s.t   = 0
@@ -37,6 +37,9 @@ class QHarness( Component ):
         s.t += 1
 
     s.add_constraints( U( up_enq ) < U( up_adv ), U( up_deq ) < U( up_adv ) )
+    # a queue that declares no order between enq and deq must behave the same whichever caller runs first
+    if order == 'enq_first': s.add_constraints( U( up_enq ) < U( up_deq ) )
+    if order == 'deq_first': s.add_constraints( U( up_deq ) < U( up_enq ) )
 
   def done( s ):
     return s.t >= s.k
@@ -45,8 +48,8 @@ class QHarness( Component ):
     return ""
 
 
-def run_harness( DutType, n, eo, do, msgs ):
-  th = QHarness( DutType, n, eo, do, msgs )
+def run_harness( DutType, n, eo, do, msgs, order=None ):
+  th = QHarness( DutType, n, eo, do, msgs, order )
   th.elaborate()
   th.apply( DefaultPassGroup() )
   th.sim_reset()
